@@ -421,6 +421,11 @@ def check_kappa(case, v: Verdict):
             if any(x is None for x in res) or not all(_is_num(x) for x in res):
                 v.label("outcome:none")
                 return
+            if not (0.0 < float(res[0]) < 1.0 and 0.0 < float(res[1]) < 1.0 and float(res[2]) > 0.0 and float(res[3]) > 0.0):
+                # exactly at the template model's v_min the matching degenerates (v+ = 0, T- = 0) and
+                # efficiencyFactor then integrates a rarefaction wave with zero enthalpy and never returns
+                v.label("outcome:degenerate-matching")
+                return
             kap = float(hyd.efficiencyFactor(vw))
         except WallGoError as exc:
             v.label("outcome:WallGoError")
@@ -454,7 +459,7 @@ def check_kappa(case, v: Verdict):
         v.nontrivial = False
         return
     rel = kap / kref - 1.0
-    rel6 = out[1e-6][0] / kref6 - 1.0
+    rel6 = (out[1e-6][0] / kref6 - 1.0) if kref6 > 0 else float("inf")  # inf: two-level rule not applicable
     v.info.update(vw=vw, kappa=kap, kappa_ref=kref, kappa_shock=ksw, kappa_rarefaction=krw, kappa_rel_err=rel,
                   kappa_rel_err_rtol1e6=rel6, matching=[vp, vm, Tp, Tm])
     v.label("has-rarefaction" if krw > 0 else "no-rarefaction", "has-shock" if ksw > 0 else "no-shock")
@@ -469,7 +474,7 @@ def check_kappa(case, v: Verdict):
                f"{rel:+.3e} at rtol=1e-8 (vw={vw:.8g})", vw=vw, kappa=kap, kappa_ref=kref)
 
 
-def check_case(case) -> Verdict:
+def _check_case(case) -> Verdict:
     v = Verdict()
     kind = case["kind"]
     if kind == "matching":
@@ -481,3 +486,39 @@ def check_case(case) -> Verdict:
     else:
         raise ValueError(kind)
     return v
+
+
+WATCHDOG_S = 240  # per-case wall-clock guard: a solver that does not return is reported as a discard, never a violation
+
+
+class _CaseTimeout(Exception):
+    pass
+
+
+def _with_watchdog(fun, case):
+    """Run fun(case) under a SIGALRM guard (main thread only; no-op elsewhere)."""
+    import signal
+    import threading
+
+    if threading.current_thread() is not threading.main_thread() or not hasattr(signal, "SIGALRM"):
+        return fun(case)
+
+    def handler(signum, frame):
+        raise _CaseTimeout()
+
+    old = signal.signal(signal.SIGALRM, handler)
+    signal.alarm(WATCHDOG_S)
+    try:
+        return fun(case)
+    except _CaseTimeout:
+        v = Verdict()
+        v.label("watchdog-timeout")
+        v.info["watchdog_s"] = WATCHDOG_S
+        return v.discarded("watchdog-timeout")
+    finally:
+        signal.alarm(0)
+        signal.signal(signal.SIGALRM, old)
+
+
+def check_case(case) -> Verdict:
+    return _with_watchdog(_check_case, case)
